@@ -196,8 +196,11 @@ pub fn show(p: &P, prec: u8, out: &mut String) {
                 }
             }
             show(y, 1, out);
-            out.push('|');
-            show(n, 1, out);
+            // "if" without "else" when the false branch is empty and the true branch is not
+            if !(matches!(**n, Empty) && !matches!(**y, Empty)) {
+                out.push('|');
+                show(n, 1, out);
+            }
             out.push(')');
         }
         Flag(f, x) => {
@@ -592,6 +595,7 @@ pub fn quants_core() -> Vec<(usize, Option<usize>)> {
 }
 pub fn quants_full() -> Vec<(usize, Option<usize>)> {
     vec![
+        (0, Some(0)),
         (0, Some(1)),
         (0, None),
         (1, None),
@@ -746,6 +750,9 @@ pub fn contexts(conds: bool) -> Vec<Box<dyn Fn(&P) -> P>> {
         v.push(Box::new(move |x| cond(x.clone(), lit('a'), lit('b'))));
         v.push(Box::new(move |x| cond(lit('a'), x.clone(), lit('b'))));
         v.push(Box::new(move |x| cond(lit('a'), lit('b'), x.clone())));
+        v.push(Box::new(move |x| cat(vec![opt(grp(lit('a'))), cond(Exists(1), x.clone(), Empty)])));
+        v.push(Box::new(move |x| cond(lit('a'), x.clone(), Empty)));
+        v.push(Box::new(move |x| cat(vec![opt(grp(lit('a'))), cond(Exists(1), Empty, x.clone())])));
         v.push(Box::new(move |x| cat(vec![cond(x.clone(), Empty, lit('b')), lit('c')])));
         v.push(Box::new(move |x| {
             if is_zero_width_atom(x) || nullable(x) {
@@ -777,4 +784,185 @@ pub fn all_texts(alphabet: &[char], maxlen: usize) -> Vec<String> {
         layer = next;
     }
     out
+}
+
+// ---------------------------------------------------------------------------------------------
+// Expected parse tree of a generated AST (documented parse rules), as wire tokens.
+// `None`: the harness does not predict this shape (flags, raw atoms).
+
+fn hex_str(s: &str) -> String {
+    if s.is_empty() {
+        return "-".to_string();
+    }
+    s.bytes().map(|b| format!("{:02x}", b)).collect()
+}
+
+#[derive(Clone, Debug, PartialEq)]
+pub enum Expect {
+    Tree(Vec<String>),
+    /// the parser must reject the pattern with this error kind
+    Error(&'static str),
+}
+
+pub fn expect_tree(p: &P) -> Option<Expect> {
+    fn is_emp(t: &[String]) -> bool {
+        t.len() == 1 && t[0] == "emp"
+    }
+    fn go(p: &P) -> Option<Result<Vec<String>, &'static str>> {
+        Some(Ok(match p {
+            Empty => vec!["emp".to_string()],
+            Lit(c) => vec![format!("lit:{}:0", hex_str(&c.to_string()))],
+            Any => vec!["any0".to_string()],
+            AnyNl => vec!["any1".to_string()],
+            Cls(s) => {
+                let inner = match *s {
+                    "\\h" => "[0-9A-Fa-f]".to_string(),
+                    "[^\\n]" => "[^\n]".to_string(),
+                    o => o.to_string(),
+                };
+                vec![format!("del:{}:1:0", hex_str(&inner))]
+            }
+            As(s) => vec![format!(
+                "as:{}",
+                match *s {
+                    "^" | "\\A" => "st",
+                    "$" | "\\z" => "et",
+                    "\\b" => "wb",
+                    "\\B" => "nwb",
+                    "(?m:^)" => "sl0",
+                    "(?m:$)" => "el0",
+                    _ => return None,
+                }
+            )],
+            Raw(s) => match *s {
+                "\\Z" => vec!["look:a".to_string(), format!("del:{}:0:0", hex_str("\n*$"))],
+                _ => return None,
+            },
+            K => vec!["keep".to_string()],
+            G => vec!["cont".to_string()],
+            Bref(n) => vec![format!("bref:{}", n)],
+            Exists(n) => vec![format!("bex:{}", n)],
+            Cat(v) => {
+                let mut kids: Vec<Vec<String>> = Vec::new();
+                for x in v {
+                    match go(x)? {
+                        Err(e) => return Some(Err(e)),
+                        Ok(t) => {
+                            // a nested concat printed without a group merges into this one
+                            if t[0].starts_with("cat:") && !matches!(x, Rep(..)) && matches!(x, Cat(_)) {
+                                return None;
+                            }
+                            if !is_emp(&t) {
+                                kids.push(t)
+                            }
+                        }
+                    }
+                }
+                match kids.len() {
+                    0 => vec!["emp".to_string()],
+                    1 => kids.pop().unwrap(),
+                    n => {
+                        let mut out = vec![format!("cat:{}", n)];
+                        for k in kids {
+                            out.extend(k);
+                        }
+                        out
+                    }
+                }
+            }
+            Alt(v) => {
+                let mut out = vec![format!("alt:{}", v.len())];
+                for x in v {
+                    match go(x)? {
+                        Err(e) => return Some(Err(e)),
+                        Ok(t) => out.extend(t),
+                    }
+                }
+                if v.iter().any(|x| matches!(x, Alt(_))) {
+                    return None;
+                }
+                out
+            }
+            Grp(x) | Named(_, x) => {
+                let mut out = vec!["grp".to_string()];
+                match go(x)? {
+                    Err(e) => return Some(Err(e)),
+                    Ok(t) => out.extend(t),
+                }
+                out
+            }
+            Look(k, x) => {
+                let kind = match *k {
+                    "=" => "a",
+                    "!" => "an",
+                    "<=" => "b",
+                    _ => "bn",
+                };
+                let mut out = vec![format!("look:{}", kind)];
+                match go(x)? {
+                    Err(e) => return Some(Err(e)),
+                    Ok(t) => out.extend(t),
+                }
+                out
+            }
+            Rep(x, lo, hi, m) => {
+                let t = match go(x)? {
+                    Err(e) => return Some(Err(e)),
+                    Ok(t) => t,
+                };
+                if is_emp(&t) || t[0].starts_with("as:") || t[0].starts_with("look:") {
+                    return Some(Err("TargetNotRepeatable"));
+                }
+                let his = match hi {
+                    Some(h) => h.to_string(),
+                    None => "inf".to_string(),
+                };
+                let mut out = Vec::new();
+                if *m == Mode::Poss {
+                    out.push("atom".to_string());
+                }
+                out.push(format!("rep:{}:{}:{}", lo, his, if *m == Mode::Lazy { 0 } else { 1 }));
+                out.extend(t);
+                out
+            }
+            Atomic(x) => {
+                let mut out = vec!["atom".to_string()];
+                match go(x)? {
+                    Err(e) => return Some(Err(e)),
+                    Ok(t) => out.extend(t),
+                }
+                out
+            }
+            Cond(c, y, n) => {
+                let ct = match &**c {
+                    Exists(g) | Bref(g) => vec![format!("bex:{}", g)],
+                    o => match go(o)? {
+                        Err(e) => return Some(Err(e)),
+                        Ok(t) => t,
+                    },
+                };
+                // a condition starting with a digit, ' or < would be read as a group reference
+                if !matches!(**c, Exists(_)) {
+                    let s = to_string(c);
+                    if s.starts_with(|ch: char| ch.is_ascii_digit() || ch == '\'' || ch == '<') {
+                        return None;
+                    }
+                }
+                let mut out = vec!["cond".to_string()];
+                out.extend(ct);
+                for b in [y, n] {
+                    match go(b)? {
+                        Err(e) => return Some(Err(e)),
+                        Ok(t) => out.extend(t),
+                    }
+                }
+                out
+            }
+            Flag(..) => return None,
+        }))
+    }
+    match go(p)? {
+        Ok(t) => Some(Expect::Tree(t)),
+        Err(e) => Some(Expect::Error(e)),
+    }
 }
